@@ -214,6 +214,25 @@ def oneshot_hits(tree):
                 if uses:
                     hits.append((fn, name, a, loop, uses[0]))
                     break
+    # an iterator bound at module level and read inside a function is drawn from by every call: the first call uses it up
+    if isinstance(tree, ast.Module):
+        for a in tree.body:
+            if not (isinstance(a, ast.Assign) and len(a.targets) == 1 and isinstance(a.targets[0], ast.Name)):
+                continue
+            v = a.value
+            if not (isinstance(v, ast.GeneratorExp) or (isinstance(v, ast.Call) and src(v.func) in MAKERS)):
+                continue
+            name = a.targets[0].id
+            n += 1
+            if any(isinstance(x, ast.Assign) and x is not a and any(isinstance(t, ast.Name) and t.id == name for t in x.targets) for x in tree.body):
+                continue
+            for fn in [f for f in ast.walk(tree) if isinstance(f, ast.FunctionDef)]:
+                local = {t.id for x in ast.walk(fn) if isinstance(x, ast.Name) and isinstance(x.ctx, ast.Store) for t in [x]} | {a_.arg for a_ in fn.args.args + fn.args.kwonlyargs}
+                if name in local:
+                    continue
+                uses = [y for y in ast.walk(fn) if isinstance(y, ast.Name) and y.id == name and isinstance(y.ctx, ast.Load)]
+                if uses:
+                    hits.append((fn, name, a, fn, uses[0]))
     return n, hits
 
 
@@ -249,8 +268,8 @@ def r_oneshot_iterators(repo, rep, R, rels, consequence):
         n += k
         for fn, name, a, loop, use in hits:
             rep.violation(R, '%s:%s %s' % (rel, use.lineno, qualname_of(fn)), '%s:%s:one-shot:%s' % (rel, qualname_of(fn), name),
-                          '`%s` is an iterator (%s) created once at line %d and drawn from in every round of the loop at line %d: it is used up in the first round -- %s'
-                          % (name, src(a.value)[:50], a.lineno, loop.lineno, consequence))
+                          '`%s` is an iterator (%s) created once at line %d and drawn from in every %s at line %d: it is used up in the first %s -- %s'
+                          % (name, src(a.value)[:50], a.lineno, 'call of the function' if loop is fn else 'round of the loop', loop.lineno, 'call' if loop is fn else 'round', consequence))
     return n
 
 
